@@ -1,5 +1,6 @@
 import ServlinVerif.Driver.C14
 import ServlinVerif.Driver.C20
+import ServlinVerif.Driver.C17
 import ServlinVerif.Driver.C15
 import ServlinVerif.Driver.C06
 import ServlinVerif.Driver.Req
@@ -44,6 +45,7 @@ def handleLine (line : String) : String :=
     | "c15s" => C15.handleSet args obs
     | "c16n" => C16.handleNew args obs
     | "c16a" => C16.handleAdd args obs
+    | "c17" => C17.handle args obs
     | "c20e" => C20.handleError args obs
     | "c20s" => C20.handleStatus args obs
     | _ => "bad-suite\tFAIL:bad-suite"
